@@ -541,6 +541,34 @@ pub fn run_c12(a: &Args, rep: &mut Report) {
         }
     }
     flush(rep, &mut cases);
+    // ladders of conditional jumps (`jeq r1, K, +1; mov r0, K` x N): N not-yet-visited branch targets
+    // in a row - any per-branch recursion or per-branch table in a compiler grows with N
+    if !par_only && !cfg!(miri) {
+        let ns: &[usize] = if q { &[3_000, 20_000, 100_000, 450_000] } else { &[3_000, 8_000, 20_000, 40_000, 100_000, 250_000, 450_000, 499_990] };
+        for (i, n) in ns.iter().enumerate() {
+            for shape in 0..2usize {
+                if (i * 2 + shape) as u64 % a.nshards != a.shard % a.nshards {
+                    continue;
+                }
+                let mut v: Vec<Insn> = Vec::with_capacity(2 * n + 3);
+                v.push(Insn::new(MOV64_IMM, 0, 0, 0, 0));
+                v.push(Insn::new(MOV64_IMM, 1, 0, 0, (*n / 2) as i32));
+                for k in 0..*n {
+                    // shape 0: each branch skips one instruction; shape 1: each branch jumps to the
+                    // NEXT branch's fall-through (nested targets)
+                    v.push(Insn::new(if shape == 0 { JEQ_IMM } else { JNE_IMM }, 1, 0, if shape == 0 { 1 } else { 2 }, k as i32));
+                    v.push(Insn::new(ADD64_IMM, 0, 0, 0, 1));
+                }
+                v.push(Insn::new(ADD64_IMM, 0, 0, 0, 0));
+                v.push(Insn::new(EXIT, 0, 0, 0, 0));
+                let mut c = Case::new(Kind::NoData, encode_prog(&v), "cond-ladder");
+                c.class = "cond-ladder".into();
+                rep.set("long_cells", format!("cond-ladder:{n}:{shape}"));
+                cases.push((c, "long"));
+                flush(rep, &mut cases);
+            }
+        }
+    }
     // programs of mixed sizes (native code from a few bytes to several pages) compiled and dropped
     // by 8 threads at once, each on its own VM: same Ok/Err as alone, no panic, no crash
     if !cfg!(miri) && !par_cases.is_empty() && crate::mon_par::par_mult() > 0 {
